@@ -15,6 +15,7 @@ NOT_CLAIMED = {}
 ENGINES = [
     {"name": "lean", "path": "lean/", "kind_free_text": "Lean 4 library NeoFS: Model/* executable models, Props/Cxx.lean property theorems, Main.lean line-protocol driver (neofs_model)"},
     {"name": "int256", "path": "harness/eng_int256.go", "serves_properties": ["C05"], "kind_free_text": "differential driver of internal/signed256 and the int-string readers of pkg/core/object against Model/Int256.lean, with a math/big oracle"},
+    {"name": "range", "path": "harness/eng_range.go", "serves_properties": ["C11"], "kind_free_text": "differential driver of PayloadRange.Resolve and of range reads through FSTree/shard/engine against Gen/Arith.lean + Model/Range.lean"},
     {"name": "ec", "path": "harness/eng_ec.go", "serves_properties": ["C21", "C22"], "kind_free_text": "differential driver of internal/ec against Model/EC.lean"},
 ]
 
@@ -57,3 +58,20 @@ prop("C05",
           "or value comparison, distinct by input",
      trusted=["uint256.Int.SetFromDecimal / Dec / Bytes32 / SetBytes32 (third party) are modelled, not verified"],
      assumptions=["strings are compared as byte strings (Go semantics); the model maps each byte to one Char"])
+
+prop("C11",
+     theorems=["NeoFS.Range.resolve_spec", "NeoFS.Range.slice_in_bounds", "NeoFS.Range.slice_zero_len", "NeoFS.Range.isFull_whole",
+               "NeoFS.Range.shift_stream_spec", "NeoFS.Range.read_spec", "NeoFS.Range.readers_agree"],
+     engines=[dict(name="range", quick=1, thorough=1)],
+     claim="PayloadRange.Resolve, IsFull and checkTooBigRange are micro-translated from the current source into Gen/Arith.lean on every run; "
+           "Lean proves for ALL 64-bit (mode, first, second, payload length) that Resolve returns exactly the slice the request denotes and "
+           "out-of-range exactly when it is unsatisfiable (incl. off+ln overflow), that the reader selection of shiftPayloadRangeStream yields "
+           "payload[off,off+ln) for every buffering split, and that ReadObjectParts agrees with the range-stream readers. The hand model of the "
+           "reader selection is tied by a differential run through real FSTree (plain, zstd-compressed, combined), shard (+-write-cache) and engine.",
+     note="Trusted: Lean kernel; the micro-translator harness/extract (tiny Go->Lean fragment; validated here by running Gen.resolve against the real "
+          "Resolve on the exhaustive small domain and boundary values); Model/Range.lean shiftStream hand model; kernel FS and zstd assumed.",
+     rule="resolve: every mode x (first,second) in 0..n+2 for payload lengths 0..14 (quick) / 0..64 (thorough) exhaustively, a 10^3 boundary grid around "
+          "2^32/2^63/2^64 and seeded 64-bit values; read: seeded (layer, size of 15, mode, boundary-biased bounds, header on/off, API) through "
+          "GetRangeStream / ReadPayloadRange / ReadObjectParts; non-trivial = satisfiable proper sub-slice, distinct by request",
+     trusted=["bbolt, kernel file system and zstd under the storage layers are exercised, not modelled"],
+     assumptions=["payloads below 2^63 bytes (larger ranges are rejected by checkTooBigRange, which is modelled)"])
